@@ -22,3 +22,5 @@ def run(chk, tier):
             L.report_table(chk, F, 'R09.report', cfg)
         L.clone_and_ctor(chk, F, 'R09.clone', cfg)
         L.helper_clones(chk, F, 'R09.helpers', cfg)
+        from props import c15
+        c15.owning_handles(chk, F, 'R09.handles', cfg)
